@@ -497,3 +497,53 @@ def gid(ip, g):
 def msg_of(ip, s):
     """element a started session sends"""
     return msg_elem(ip, s, ip.getattr(s, "xy_scalar", True))
+
+
+def is_prime(ip, n):
+    from . import theory
+    return mkbool(theory.isprime(I(n)))
+
+
+def is_member(ip, g, a):
+    return insub(ip, g, a)
+
+
+# ---- rejection sampling (C11) ------------------------------------------------------------------------------------
+f_rr = z3.Function("rr", sym.Int, sym.Int, sym.Int, sym.Int)     # rr(maxval, stream, pos)
+
+
+def topbits(ip, maxval):
+    """number of significant bits in the top byte of an n-byte block for range width maxval"""
+    return mkint(I(size_bits(ip, maxval)) - 8 * (I(size_bytes(ip, maxval)) - 1))
+
+
+def cand(ip, maxval, e, pos):
+    """candidate read from the pos-th block of entropy stream e: the block with its top byte reduced mod 2**topbits"""
+    n = I(size_bytes(ip, maxval))
+    blk = sym.ENT(IV(e.stream), I(pos), n)
+    k = I(topbits(ip, maxval))
+    return mkint((sym.HEAD(blk) % sym.P2(k)) * sym.P256(n - 1) + sym.bval(sym.bdrop(blk, 1)))
+
+
+def rr(ip, maxval, e, pos):
+    """rejection sampling: the first candidate < maxval at or after block pos (recursive definition, unfolded once)"""
+    m, p = I(maxval), I(pos)
+    t = f_rr(m, IV(e.stream), p)
+    if sym.FACTS.reg("rr", m, e.stream, p):
+        c = I(cand(ip, maxval, e, pos))
+        sym.FACTS.add(t == z3.If(c < m, c, f_rr(m, IV(e.stream), p + 1)), "rr-unfold")
+    return mkint(t)
+
+
+def entropy_pos(ip, e):
+    return mkint(ip.ctx.entropy_pos.get(e.stream, IV(0)))
+
+
+def entropy_sizes_all(ip, n):
+    """every direct entropy call on this path asked for exactly n bytes"""
+    r = True
+    for _, k in ip.ctx.entropy_log:
+        if isinstance(k, str):
+            return False
+        r = ip.and_(r, ip.equals(k, n))
+    return r
